@@ -46,10 +46,13 @@ pub fn all() -> Vec<(&'static str, fn())> {
     v.extend_from_slice(c02::bytes::LIST);
     v.extend_from_slice(c04::LIST);
     v.extend_from_slice(c04::c05::LIST);
+    v.extend_from_slice(c04::ext::LIST);
     v.extend_from_slice(c03::LIST);
     v.extend_from_slice(c03::u::LIST);
     v.extend_from_slice(c03::t::LIST);
     v.extend_from_slice(c03::x::LIST);
+    v.extend_from_slice(c03::tk::LIST);
+    v.extend_from_slice(c03::map::LIST);
     #[cfg(feature = "likelysubtags")]
     {
         v.extend_from_slice(c06::LIST);
